@@ -463,6 +463,15 @@ def conforming(rng, nfuncs=None, depth=2, recursion=True):
                     out.append("%s t0, %d(sp)" % (rng.choice(["lh", "lhu"]), off))
                 out.append("add a0, a0, t0")
         body(fn, [], depth, out)
+        if rng.random() < 0.3:
+            # an early return: the function has two `ret`s, each behind its own epilogue
+            alt = "alt_%s" % fn.name
+            out.append("%s a0, %s" % (rng.choice(["beqz", "bgez", "bnez"]), alt))
+            body(fn, [], max(depth - 1, 0), out)
+            for r in slots:
+                out.append("lw %s, %d(sp)" % (r, offs[r]))
+            out += ["addi sp, sp, %d" % frame, "ret", "%s:" % alt]
+            body(fn, [], max(depth - 1, 0), out)
         for r in slots:
             out.append("lw %s, %d(sp)" % (r, offs[r]))
         out.append("addi sp, sp, %d" % frame)
@@ -537,6 +546,8 @@ def inject(rng, lines, kind):
         j = f + 1
         while j < len(L) and (L[j].startswith("sw ") or L[j].startswith("addi sp")):
             j += 1
+        if "alt_" + L[f] in L and rng.random() < 0.6:
+            j = L.index("alt_" + L[f]) + 1        # on the path that ends in the function's LATER return only
         used = set(w for l in L for w in l.replace(",", " ").split())
         cand = [s for s in SAVED if s not in used]
         if not cand:
